@@ -792,13 +792,13 @@ def gen_spec(rng, profile="mixed"):
     profile: "mixed" (everything), "converge" (several workers, one shared chain, short durations: occupation
     and retries), "cleanup" (removable states at any depth), "faulty" (failures, never-reported results)."""
     kind = rng.random()
-    if kind < 0.6:
+    if kind < 0.6 or profile == "longwait":
         pool = [w for w in WORKER_KINDS if w["spawner"] == "lxc"]
     elif kind < 0.85:
         pool = [w for w in WORKER_KINDS if w["spawner"] == "remote"]
     else:
         pool = [dict(WORKER_KINDS[0], spawner="process", host="")]
-    nw = 1 if len(pool) == 1 else rng.choice([1, 2, 2, 3, 3, 4])
+    nw = 1 if len(pool) == 1 else rng.choice([1, 2, 2, 3, 3, 4]) if profile != "longwait" else rng.choice([2, 2, 3])
     workers = [dict(w) for w in pool[:nw]] if rng.random() < 0.7 else [dict(w) for w in rng.sample(pool, min(nw, len(pool)))]
     # grouped by swarm as TestSwarm.run_swarms would be
     scopes = ["own", "swarm", "cluster", "shared"]
@@ -808,7 +808,7 @@ def gen_spec(rng, profile="mixed"):
     else:
         scope = [s for s in scopes if rng.random() < 0.7] or ["own"]
     cfg = {"pool_scope": " ".join(scope), "test_timeout": rng.choice([1000, 1000, 1000, 200, 100])}
-    if rng.random() < 0.35 or profile == "converge":
+    if rng.random() < 0.35 or profile in ("converge", "longwait"):
         cfg["max_tries"] = rng.choice([1, 2, 2, 3, 1, 2, 2, 3, 0])
         if rng.random() < 0.4:
             cfg["max_concurrent_tries"] = rng.choice([1, 1, 2, 3])
@@ -818,7 +818,7 @@ def gen_spec(rng, profile="mixed"):
             cfg["stop_status"] = rng.choice(["pass", "fail", "error"])
     if rng.random() < 0.1:
         cfg["pool_filter"] = rng.choice(["copy", "block", "reuse"])
-    nvm = rng.choice([1, 2, 2, 3])
+    nvm = rng.choice([1, 2, 2, 3]) if profile != "longwait" else rng.choice([1, 1, 2])
     vms = ["vm1", "vm2", "vm3"][:nvm]
     classes = []
     chains = {}
@@ -883,7 +883,7 @@ def gen_spec(rng, profile="mixed"):
     for w in workers:
         seq = []
         for _ in range(rng.randint(1, 7)):
-            if profile == "converge":
+            if profile in ("converge", "longwait"):
                 dur = rng.choice([1, 1, 2, 3, 5])
             else:
                 dur = rng.choice([1, 2, 3, 5, 8, 13, 40, 90])
@@ -903,7 +903,33 @@ def gen_spec(rng, profile="mixed"):
         leaves = [c for c in classes if c.get("leaf")]
         for c in rng.sample(leaves, rng.randint(1, len(leaves))):
             c["exclude"] = [w["id"] for w in rng.sample(workers, rng.randint(1, len(workers) - 1))]
-    return {"workers": workers, "vms": vms, "cfg": cfg, "classes": classes, "pool": poolspec, "schedule": sched}
+    spec = {"workers": workers, "vms": vms, "cfg": cfg, "classes": classes, "pool": poolspec, "schedule": sched}
+    if profile == "longwait":
+        long_wait(rng, spec)
+    return spec
+
+
+def long_wait(rng, spec):
+    """profile "longwait": a timeout budget above 10 000 s (the shipped default test_timeout is 14 400 s) and ONE test
+    that legitimately runs for most of it while the other workers of the scope converge on it: they back off about 900
+    times in a row, and the waiting time they account must stay below the budget (no bump, nobody joins).  Everything
+    else is short so that the run stays within the virtual-time limit."""
+    cfg = spec["cfg"]
+    cfg["test_timeout"] = rng.choice([14400, 14400, 20000, 12000])
+    cfg["pool_scope"] = "own swarm cluster shared"
+    cfg.pop("max_concurrent_tries", None)
+    if cfg.get("max_tries", 1) not in (1, 2):
+        cfg.pop("max_tries", None)
+    spec["pool"] = {}
+    for c in spec["classes"]:
+        c.pop("exclude", None)
+    ids = [w["id"] for w in spec["workers"]]
+    slow = rng.choice(ids)
+    for wid in ids:
+        seq = [[rng.choice([2, 3, 5, 8]), "PASS"] for _ in range(6)]
+        if wid == slow:
+            seq[rng.randrange(2)] = [int(cfg["test_timeout"] * rng.choice([0.72, 0.8, 0.9])), "PASS"]
+        spec["schedule"][wid] = seq
 
 
 def mon_lines(run):
